@@ -223,6 +223,63 @@ class Case:
                     return True  # back edge of `loop`: what a writer inside it wrote is not copied out inside it
         return False
 
+    @staticmethod
+    def _has_real_users(value):
+        return any(u.operation.name not in CASTS or Case._has_real_users(u.operation.results[0]) for u in value.uses)
+
+    def dead_cast_in_place(self):
+        """Structural feature (output program): a cast without real users was left in place on a buffer that stands in for a
+        cast (a memref.alloc result with real users), and a copy of that buffer was placed at the dead cast: the copy-out
+        directly behind it (or behind the statement around it), or the copy-in directly in front of it."""
+        for op in self.out.walk():
+            if op.name not in CASTS or self._has_real_users(op.results[0]):
+                continue
+            src = op.operands[0]
+            if getattr(getattr(src, "op", None), "name", "") != "memref.alloc" or not self._has_real_users(src):
+                continue
+            at = op
+            while at is not None and at.parent_block() is not None:
+                nxt = at.next_op
+                while nxt is not None and nxt.name in CASTS and not self._has_real_users(nxt.results[0]):
+                    nxt = nxt.next_op
+                if nxt is not None and nxt.name == "memref.copy" and nxt.operands[0] is src:
+                    return True
+                prv = at.prev_op
+                if prv is not None and prv.name == "memref.copy" and prv.operands[1] is src:
+                    return True
+                at = at.parent_op()
+                if at is None or at.name == "func.func":
+                    break
+        return False
+
+    def shared_cast_beside_other_paths(self):
+        """Structural feature (after set-memory-space): an accelerator operand that was a bare non-L1 value v in the input now
+        goes through an L1 cast X of v although v is also reached through other users (casts, subviews, other ops), and X is
+        an explicit cast of the input (`c12.x`) or serves two or more such operands."""
+        bare = set()
+        for op in self.orig.walk():
+            if op.name in ACC_FOR_LOCALITY:
+                for k, o in enumerate(op.operands):
+                    if is_memref(o.type) and memspace(o.type) != "L1" and getattr(getattr(o, "op", None), "name", "") not in CASTS:
+                        bare.add((_tag(op), k))
+        ok_users = ACC_FOR_LOCALITY + ("func.return",)
+        for op in self.mid.walk():
+            if op.name not in ACC_FOR_LOCALITY:
+                continue
+            for k, o in enumerate(op.operands):
+                x = getattr(o, "op", None)
+                if (_tag(op), k) not in bare or x is None or x.name != "memref.memory_space_cast":
+                    continue
+                v = x.operands[0]
+                others = [u for u in v.uses if u.operation is not x and u.operation.name not in ok_users]
+                others += [u for u in o.uses if u.operation.name not in ok_users]
+                if not others:
+                    continue
+                nbare = sum(1 for u in o.uses if (_tag(u.operation), u.index) in bare)
+                if "c12.x" in x.attributes or nbare >= 2:
+                    return True
+        return False
+
     def global_transformed_twice(self):
         return any(op.name == "memref.global" and op.sym_name.data.endswith("_transformed_transformed")
                    and not isinstance(op.initial_value, builtin.UnitAttr) for op in self.out.walk())
@@ -269,7 +326,11 @@ class Case:
                 if kind in DATA_KINDS and missing:
                     # what is read through the dangling memref.get_global is undefined; the cause is reported once
                     continue
-                if kind in DATA_KINDS and out is not None and out.m.clobbers and self.writer_before_first_reader():
+                if kind in DATA_KINDS and self.shared_cast_beside_other_paths():
+                    sig = "dataflow:set-memory-space-routes-a-bare-operand-through-a-cast-buffer-beside-other-paths"
+                elif kind in DATA_KINDS and self.dead_cast_in_place():
+                    sig = "dataflow:dead-cast-left-in-place-is-counted-as-a-user-of-the-cast-buffer"
+                elif kind in DATA_KINDS and out is not None and out.m.clobbers and self.writer_before_first_reader():
                     sig = "dataflow:copy-in-overwrites-what-an-earlier-writer-left-in-the-cast-buffer"
                 elif kind in DATA_KINDS and self.global_transformed_twice() and "val:" in str(det.get("expected")) and "val:" in str(det.get("got")):
                     sig = "dataflow:initialised-global-is-re-laid-out-more-than-once"
